@@ -861,7 +861,7 @@ class Sample(Contract):
         cbs = [x for x in ev if x[0] == "callback"]
         if sh["checkpoint_callback"] or sh["checkpoint_every"]:
             ok = len(cbs) >= 1 and cbs[-1][1].f["samples"] is fin
-            p.prove(z3.BoolVal(ok), f"{q}:C12:forced final checkpoint of the final population")
+            p.prove(z3.BoolVal(ok), f"{q}:C12:C14:forced final checkpoint of the final population (whatever the cadence: a finished run leaves its own checkpoint in the file, not an earlier run's)")
             if ok:
                 ck = cbs[-1][1]
                 p.prove(z3.And(to_int(ck.f["iteration"]) == it, to_real(ck.f["beta"]) == beta), f"{q}:C12:final checkpoint carries the final iteration and beta")
